@@ -165,6 +165,30 @@ def gen_c18_split(rng, tier, skip, msgb):
     return case
 
 
+def gen_c18_indication(rng, tier, skip):
+    """Library clients that are reading frames while another client sends channel flush notifications: every reader gets an
+    unsolicited CHN_CHANGE_IND between its frames.  What the library hands out must still be captured frames only (the flush may
+    cost frames, so gaps are not judged in these cases)."""
+    case = common(rng, 'C18', skip, allow_tsan=False)
+    case['variant'] = 'select'
+    case['tsan'] = False
+    case['opts'] = []
+    case['kind'] = 'indication'
+    per = case['period_us'] / 1000.0
+    clients = []
+    for i in range(rng.choice([1, 2])):
+        clients.append({'kind': 'lib', 'name': 'c%d' % i, 'delay_ms': 0,
+                        'ops': [['C', services(rng, False) or pref.VPS, 0, 8, 0], ['R', max(20, min(80, int(600 / per)))], ['D']]})
+    nops = [['C', services(rng, False) or pref.TTX_B, 0, 8, 0], ['T', 120]]
+    for _ in range(rng.choice([2, 3, 4])):
+        nops.append(['N', 4])
+        nops.append(['T', rng.choice([40, 80, 120])])
+    nops.append(['D'])
+    clients.append({'kind': 'lib', 'name': 'n0', 'delay_ms': 60, 'ops': nops})
+    case['clients'] = clients
+    return case
+
+
 # ---------------------------------------------------------------------------------------------------------------
 def _send(hexbytes, **meta):
     return ['s', hexbytes.hex() if isinstance(hexbytes, (bytes, bytearray)) else hexbytes, meta]
